@@ -5,6 +5,7 @@ from __future__ import annotations
 from .. import terms as tm
 from ..model import AnalysisError
 from .common import ob, need, call_name, roles, swap_roles, role_of, lit, is_lit, resolve_ite_free
+from . import common
 from .. import symeval
 from ..constfold import table
 
@@ -533,6 +534,8 @@ def rule_encodeall(ctx):
 
 
 RULES = [
+    ("C11.ENCODEPOST", 2, common.shared("c10", "rule_encodepost", "C11.ENCODEPOST")),
+    ("C11.TABLES", 30, common.shared("c10", "rule_tables", "C11.TABLES", keep=lambda o: "QUALITIES" in o.construct or "EXTENDED" in o.construct)),
     ("C11.ENCODEPURE", 9, rule_encodepure),
     ("C11.CONJ", 36, rule_conj),
     ("C11.MASKREFONLY", 14, rule_maskrefonly),
